@@ -131,9 +131,19 @@ def run_unit(name: str, repo: str = '/repo', extra_args: List[str] = None, text_
     res.unit_obj, res.linemap, res.text = u, linemap, text
     work = os.environ.get('VERIF_WORK_DIR', os.path.join(VERIF, '.work'))
     os.makedirs(work, exist_ok=True)
-    path = os.path.join(work, name + (('.' + tag) if tag else '') + '.rs')
+    # one file per process and purpose: concurrent checks never read each other's half-written unit
+    sub = os.path.join(work, 'p%d' % os.getpid())
+    os.makedirs(sub, exist_ok=True)
+    path = os.path.join(sub, name + (('.' + tag) if tag else '') + '.rs')
     open(path, 'w').write(text)
-    res.path = path
+    latest = os.path.join(work, name + (('.' + tag) if tag else '') + '.rs')
+    try:
+        tmp = latest + '.tmp%d' % os.getpid()
+        open(tmp, 'w').write(text)
+        os.replace(tmp, latest)      # convenience copy for humans (atomic)
+    except OSError:
+        pass
+    res.path = latest
     try:
         ensure_ext()
     except Exception as e:
@@ -147,7 +157,7 @@ def run_unit(name: str, repo: str = '/repo', extra_args: List[str] = None, text_
         cmd += extra_args
     res.cmd = ' '.join(cmd)
     try:
-        p = subprocess.run(cmd, capture_output=True, text=True, timeout=timeout, cwd=work)
+        p = subprocess.run(cmd, capture_output=True, text=True, timeout=timeout, cwd=sub)
     except subprocess.TimeoutExpired:
         res.undecided = 'verus timed out after %ds' % timeout
         return res
